@@ -501,8 +501,9 @@ static void array_case(uint64_t idx, vh_rng_t * rng, size_t n) {
         if (R.cnt != n) vh_violation("C07:array-count", "%s of %zu elements emitted as \"%s\" decoded %zu elements", kind_names[kind], n, vh_esc(t, tl), R.cnt);
         else for (i = 0; i < n; i++) {
             int bad = 0;
-            if (kind == K_AF) { float x, y; memcpy(&x, a + i * 4, 4); memcpy(&y, (char *) R.arr + i * 4, 4); bad = !(fabs((double) x - (double) y) <= FPTOL * (double) unit_of(fabsl(x), 6) * 1.000001 + fabs((double) x) * 1.2e-7); }
-            else if (kind == K_AD) { double x, y; memcpy(&x, a + i * 8, 8); memcpy(&y, (char *) R.arr + i * 8, 8); bad = !(fabsl((long double) x - y) <= FPTOL * unit_of(fabsl(x), 15) * 1.000001L + fabsl(x) * 2.3e-16L);
+            if (kind == K_AF) { float x, y; memcpy(&x, a + i * 4, 4); memcpy(&y, (char *) R.arr + i * 4, 4); /* half (dtostre: one) unit of the sixth digit plus the float's own spacing there (subnormals are coarser than 1.2e-7 relative) */
+                bad = !(fabsl((long double) x - (long double) y) <= FPTOL * unit_of(fabsl(x), 6) * 1.000001L + (long double) (nextafterf(fabsf(x), INFINITY) - fabsf(x))); }
+            else if (kind == K_AD) { double x, y; memcpy(&x, a + i * 8, 8); memcpy(&y, (char *) R.arr + i * 8, 8); bad = !(fabsl((long double) x - y) <= FPTOL * unit_of(fabsl(x), 15) * 1.000001L + (long double) (nextafter(fabs(x), INFINITY) - fabs(x)));
 #if VH_LIB_DTOSTRE
                 if (bad && fabsl((long double) x - y) <= 6.5L * unit_of(fabsl(x), 15)) { vh_violation("C07:double-off-by-units-dtostre-accuracy", "array element %a decoded as %a", x, y); bad = 0; }
 #endif
